@@ -23,7 +23,7 @@ EXPLANATION = (
     "lower view scrolls over); (5) thumb geometry is computed only from queries made with the size the wrapped widget is drawn at (ow_size), never the ScrollBar's own size."
     " Added after seed round 3: every return of Scrollable.render comes after _adjust_trim_top() (the position reported is 0 when the content fits); a constant top part is stored only under a test that the thumb leaves room; (8) FOCUS-FWD on the scrolling protocol (ListBox.get_scrollpos -> calculate_visible); (9) ScrollBar remembers for keypress()/mouse_event() exactly the size handed to the wrapped widget's render()."
     ' Round 4: (10) ListBox.get_first_visible_pos returns a count obtained by walking get_prev(), never a walker position, and positions are never tested for being integers; (11) Scrollable.render returns the untrimmed canvas only when it fits in both directions.'
-    ' Round-4 triage: (3, extended) the relative-mode total is raised to position + visible amount before the maximum position is derived from it; (12) INV-RENDER - when rendering moves / clamps the position for the size at hand, the canvases cached for other sizes are dropped (shared with C06.9). Round 5: (13) the one-shot scroll request is reset on every path through _adjust_trim_top.'
+    ' Round-4 triage: (3, extended) the relative-mode total is raised to position + visible amount before the maximum position is derived from it; (12) INV-RENDER - when rendering moves / clamps the position for the size at hand, the canvases cached for other sizes are dropped (shared with C06.9). Round 5: (13) the one-shot scroll request is reset on every path through _adjust_trim_top; (14) the wheel arithmetic of ScrollBar normalises a from-the-end position first.'
 )
 NOT_DECIDED = "0 <= position <= total - height after every history as a value statement, thumb monotonicity, rounding of the thumb, wheel handling, relative-scroll estimates."
 ASSUMPTIONS = []
@@ -504,6 +504,33 @@ def rule_one_shot_consumed(ctx: Ctx) -> RuleResult:
     return rr
 
 
+def rule_raw_position_arithmetic(ctx: Ctx) -> RuleResult:
+    """Scrollable.set_scrollpos() accepts positions counted from the end (negative numbers); they become row numbers
+    only in the next rendering, and get_scrollpos() hands the raw value back until then.  Code that computes a new
+    position *from* get_scrollpos() (the wheel handling of ScrollBar.mouse_event) therefore has to normalise a
+    negative value first - a test `pos < 0` dominating the arithmetic."""
+    p = ctx.p
+    rr = RuleResult("GUARD", "C20.14", "arithmetic on a position read with get_scrollpos() is made only after a negative (from-the-end) value was normalised", floor=1)
+    from ..rules.defuse import DefUse
+
+    fi = p.func(f"{SB}.mouse_event")
+    du = DefUse(fi)
+    cfg = du.cfg
+    pos_names = {t.id for n in fi.own_nodes() if isinstance(n, ast.Assign) and isinstance(n.value, ast.Call) and callee_name(n.value) == "get_scrollpos" for t in n.targets if isinstance(t, ast.Name)}
+    if not pos_names:
+        raise AnalysisError("ScrollBar.mouse_event: no position read with get_scrollpos() found")
+    ar = [n for n in cfg.nodes if n.ast is not None and n.kind not in ("for", "with", "handler", "test") and any(isinstance(b, ast.BinOp) and isinstance(b.op, (ast.Add, ast.Sub)) and isinstance(b.left, ast.Name) and b.left.id in pos_names and isinstance(b.right, ast.Constant) for b in ast.walk(n.ast)) and any(isinstance(c, ast.Call) and callee_name(c) == "set_scrollpos" for c in ast.walk(n.ast))]
+    tests = [t for t in cfg.nodes if t.kind == "test" and isinstance(t.ast, ast.Compare) and isinstance(t.ast.left, ast.Name) and t.ast.left.id in pos_names and isinstance(t.ast.ops[0], ast.Lt) and isinstance(t.ast.comparators[0], ast.Constant) and t.ast.comparators[0].value == 0]
+    for n in ar:
+        ok = bool(tests) and cfg.dominated(n, tests)
+        rr.inst(norm(n.stmt, 50), True, {"arithmetic": norm(n.stmt, 60), "normalised_first": ok})
+        if not ok:
+            rr.add(finding("GUARD", fi, n.stmt, f"`{norm(n.stmt, 50)}` computes the new position from the raw get_scrollpos() value: after set_scrollpos(-1) (bottom) and before the next rendering that value is still -1, so a wheel step lands at the top instead of one row above the bottom", construct=f"arithmetic on an unnormalised position: {norm(n.stmt, 50)}"))
+    if not ar:
+        raise AnalysisError("ScrollBar.mouse_event: the wheel arithmetic on the position was not found")
+    return rr
+
+
 def run(ctx: Ctx):
     p = ctx.p
     return [
@@ -519,6 +546,7 @@ def run(ctx: Ctx):
         rule_positions_opaque(ctx),
         rule_fit_test(ctx),
         rule_one_shot_consumed(ctx),
+        rule_raw_position_arithmetic(ctx),
         fresh.run_fresh(p, "C20.7", ["urwid.canvas"], floor=30),
         inv.run_inv(p, "C20.6", floor_classes=2, floor_nontrivial=1, exceptions=INV_EXCEPTIONS, only_classes={"Scrollable", "ScrollBar"}),
         fwd.run_fwd(p, "C20.8", ("urwid.widget.scrollable", "urwid.widget.listbox"), floor=20, description="the scrolling protocol (get_scrollpos, rows_max, get_first_visible_pos, ...) and the renderers pass the focus flag on: the position is computed for the rendering that is shown"),
@@ -527,6 +555,7 @@ def run(ctx: Ctx):
 
 _F = "urwid/widget/scrollable.py"
 MUTANTS = [
+    Mut("wheel-arithmetic-on-raw-position", _F, "ScrollBar.mouse_event", "            if pos < 0:\n                # a position counted from the end that has not been rendered (normalised) yet\n                pos = max(0, ow.rows_max(ow_size, focus) - ow_size[1] + pos + 1)\n", "", "GUARD|widget.scrollable.ScrollBar.mouse_event"),
     Mut("scroll-request-survives-fitting-render", _F, "Scrollable._adjust_trim_top", "        action = self._scroll_action\n        self._scroll_action = None\n\n        _maxcol, maxrow = size", "        _maxcol, maxrow = size", "PASS|widget.scrollable.Scrollable._adjust_trim_top", also=[("        def ensure_bounds(new_trim_top: int) -> int:", "        action = self._scroll_action\n        self._scroll_action = None\n\n        def ensure_bounds(new_trim_top: int) -> int:")]),
     Mut("scrollable-position-moved-without-invalidate", "urwid/widget/scrollable.py", "Scrollable._adjust_trim_top", "        if self._trim_top != old_trim_top:\n            # canvases cached for other sizes show the old position\n            self._invalidate()\n", "", "INV-RENDER|widget.scrollable.Scrollable._adjust_trim_top"),
     Mut("scrollbar-estimate-not-raised-to-pos-plus-visible", "urwid/widget/scrollable.py", "ScrollBar.render", "ow_len = max(ow_len, pos + visible_amount)", "ow_len = max(ow_len, visible_amount, pos)", "PAIR|widget.scrollable.ScrollBar.render|posmax"),
